@@ -153,6 +153,9 @@ def run(repo, rep, tier):
         "(R10.3) in __iadd__ no state change precedes an operation that can still reject (typestate on the CFG). "
         "Decides which mismatches reach a raise, not the run-time behaviour on concrete trees."
     )
+    rep.extra["explanation"] += " " + (
+        'Later addition: (R10.4) shared rule of C04: the declared content type the guards compare survives zero/+/* in reloaded form.'
+    )
     rep.not_decided += ["template compatibility deeper than the content type name in immutable (reloaded) form"]
     prims, _ = primitives(repo)
     models = build_models(repo)
